@@ -129,6 +129,19 @@ def run(ctx):
     for _ in range(n_models):
         a, o, t = gen_valid(ctx.rng, ctx.quick, wide_p=0.0, int_p=0.0, bool_only=True, classes=SAFE_CLASSES, max_arity=3)
         do_case(ctx, {"ast": a})
+    # nodes over compound *and* integer-atom children (conjunction shapes among them): sums where an integer leaf can
+    # compensate for a false sub-proposition
+    from props.c05 import gen_mixed
+    for _ in range(n_models):
+        a = gen_mixed(ctx.rng)
+        try:
+            o = build(a)
+        except Exception:
+            continue
+        if is_var(o) or not well_formed(snap(o)) or o.errors():
+            continue
+        ctx.tags["mixed-compound-and-integer-atoms-stream"] += 1
+        do_case(ctx, {"ast": a})
     made = 0
     for _ in range(n_models * 6):
         if made >= n_models:
